@@ -52,6 +52,15 @@ pub fn big_arcs() -> Vec<(&'static str, u128)> {
     vec![("2^63", 1 << 63), ("2^64-1", (1 << 64) - 1), ("2^64", 1 << 64), ("2^64+1", (1 << 64) + 1), ("2^64+3", (1 << 64) + 3), ("2^64+10", (1 << 64) + 10), ("2^65+3", (1 << 65) + 3), ("2^70-1", (1 << 70) - 1), ("2^70+3", (1 << 70) + 3), ("2^71+3", (1 << 71) + 3)]
 }
 
+/// Names with attribute type 2.5.4.x for every x in 0..=127, after an organisation (registered types, their neighbours,
+/// numbers that read alike in decimal and hexadecimal).
+pub fn x520_type_names() -> Vec<(String, Vec<u8>)> {
+    (0..=127u64)
+        .filter(|x| *x != 10)
+        .map(|x| (format!("O=o, then type 2.5.4.{}", x), seq(&[set_of(&[seq(&[oid(&[2, 5, 4, 10]), string(T_UTF8, b"o")])]), set_of(&[seq(&[oid(&[2, 5, 4, x]), string(if x == 6 { T_PRINTABLE } else { T_UTF8 }, b"DE")])])])))
+        .collect()
+}
+
 /// Names whose (single or second) attribute type is 2.5.4.<big arc>: modulo 2^64 several of them read as commonName (3)
 /// or organizationName (10).
 pub fn big_arc_names() -> Vec<(String, Vec<u8>)> {
